@@ -35,6 +35,7 @@ class Explorer:
         self._scope_path = None
         self._decided, self._keep = {}, []
         self._sel_cache, self._nsel = {}, 0
+        self._graveyard = []
         self.quick_ms = int(os.environ.get('SX_QUICK_MS', '2000'))
 
     # ---- solver plumbing
@@ -383,6 +384,7 @@ class Explorer:
         t = time.time()
         s2 = self._scratch()
         r, m = None, None
+        dirty = False
         try:
             scoped = self._scope_path is path
             s2.push()
@@ -393,6 +395,7 @@ class Explorer:
                 r = s2.check()
                 m = s2.model() if r == z3.sat else None
                 if r == z3.unknown:
+                    dirty = True          # (popping an incremental solver whose check was cut short has been seen to spin for tens of minutes)
                     r, m = self._fresh_check(list(s2.assertions()), self.timeout_ms)
                 s2.set('timeout', self.timeout_ms)
                 if r == z3.sat and self.defs:
@@ -437,9 +440,14 @@ class Explorer:
                             r, m = self._external_check(conds + list(self.defs), min(self.timeout_ms / 1000.0, 20))
                         s2.set('timeout', self.timeout_ms)
             finally:
-                s2.pop()
-                if exact_timeout_ms is not None:
-                    s2.set('timeout', self.timeout_ms)
+                if dirty:
+                    # abandon the scratch solver instead of popping it; later verdicts of this path re-assert the path condition
+                    self._graveyard.append(s2)
+                    self._s2, self._scope_path = None, None
+                else:
+                    s2.pop()
+                    if exact_timeout_ms is not None:
+                        s2.set('timeout', self.timeout_ms)
         finally:
             self.stats['solver_s'] += time.time() - t
             self.stats['solver_queries'] += 1
